@@ -273,7 +273,8 @@ def gen_data(rng, size, window):
                 continue
         r = rng.below(100)
         if style == "longtok" and r < 6:
-            out += rand_word(rng, rng.choice([window - 1, window, window + 1, 2 * window + 3, rng.range(PAGE, 3 * window)])) + rng.choice(SEPS)
+            lw = window if window <= (1 << 16) else 2 * PAGE      # tokens longer than a 1 MB window only in inputs built for that (thorough)
+            out += rand_word(rng, rng.choice([lw - 1, lw, lw + 1, 2 * lw + 3, rng.range(PAGE, 3 * lw)])) + rng.choice(SEPS)
         elif style == "lines" or (style == "mixed" and r < 15):
             ln = rng.choice([0, 1, 5, rng.range(0, 80), rng.range(0, 300)])
             line = bytearray()
@@ -365,6 +366,30 @@ def aligned_chunks(rng, data, window):
             chunks.append(c - p)
             p = c
     return chunks
+
+
+INTR = -1      # in a chunk list: this read() call returns -1 / EINTR
+
+
+def chunk_str(chunks):
+    return ",".join("i" if c == INTR else "%x" % c for c in chunks) or "-"
+
+
+def with_interrupts(rng, chunks):
+    """sprinkle interrupted read() calls over a list of dictated read lengths: before the very first byte, in runs, anywhere"""
+    k = rng.below(5)
+    if k == 0:
+        return chunks
+    out = list(chunks)
+    if k == 1 or rng.chance(1, 2):
+        out = [INTR] * rng.range(1, 3) + out                # the first read (magic detection) is interrupted
+    if k >= 2:
+        n = rng.choice([1, 2, 5, len(out) // 3 + 1])
+        for _ in range(n):
+            out.insert(rng.below(len(out) + 1), INTR)
+    if k == 4 and len(out) < 40:
+        out += [rng.choice([INTR, 1, 7, 4096]) for _ in range(30)]
+    return out
 
 
 def gen_chunks(rng, data, window):
@@ -496,16 +521,20 @@ def gen_boundary_cases(rng, n_gz, n_other):
         ops = "".join(rng.choice("LLLLLLED") for _ in range(nl + 2)) + "LGP"
         backend = rng.choice(["ZM", "ZR", "ZR"])
         chunks = [rng.choice([1, 5, 6, 7, KIN - 1, KIN, KIN + 1, rng.range(1, 3 * KIN)]) for _ in range(80)] if backend == "ZR" and rng.chance(2, 3) else []
-        fp.append("FP %s %x %s %s %s %s" % (backend, rng.choice([1, 4096, 1 << 20]), hexs(plain), hexs(comp), ",".join("%x" % c for c in chunks) or "-", ops))
+        if backend == "ZR":
+            chunks = with_interrupts(rng, chunks)
+        fp.append("FP %s %x %s %s %s %s" % (backend, rng.choice([1, 4096, 1 << 20]), hexs(plain), hexs(comp), chunk_str(chunks), ops))
         src = rng.choice("FR")
         rchunks = [rng.choice([1, 2, 5, 6, 7, KIN - 1, KIN, KIN + 1]) for _ in range(60)] if src == "R" and rng.chance(1, 2) else []
+        if src == "R":
+            rchunks = with_interrupts(rng, rchunks)
         reqs = [rng.choice([1, 3, 100, 4096, KIN, 65536, rng.range(1, 70000)]) for _ in range(rng.range(1, 8))]
         if sum(reqs) < 512 * len(reqs):
             reqs.append(rng.choice([4096, KIN, 65536]))       # keep the number of calls (and the model's run time) bounded
         h = 7
         for x in plain:
             h = (h * 257 + x + 1) % 2147483647
-        rc.append(("RC %s %s %s %s %s %s" % (src, hexs(comp), ",".join("%x" % c for c in rchunks) or "-", ",".join("%x" % c for c in reqs),
+        rc.append(("RC %s %s %s %s %s %s" % (src, hexs(comp), chunk_str(rchunks), ",".join("%x" % c for c in reqs),
                                             ",".join(p.hex() or "-" for p, _ in members), ",".join("%x" % len(c) for _, c in members)),
                    "%x %x 0" % (len(plain), h)))
     return fp, rc
@@ -544,9 +573,47 @@ def gen_fp_cases(rng, count, big):
         comp = b""
         if backend in ("R", "P", "ZR", "MF"):
             chunks = gen_chunks(rng, data, window)
+            if backend != "P":
+                chunks = with_interrupts(rng, chunks)
         if backend[0] == "Z":
             comp = compress(rng, data, rng.choice(["gz", "bz2", "xz"]))
-        cases.append("FP %s %x %s %s %s %s" % (backend, minb, hexs(data), hexs(comp), ",".join("%x" % c for c in chunks) or "-", ops or "-"))
+        cases.append("FP %s %x %s %s %s %s" % (backend, minb, hexs(data), hexs(comp), chunk_str(chunks), ops or "-"))
+    return cases
+
+
+def gen_final_number_cases(rng, count):
+    """the input ends with an integer and nothing after it, all earlier tokens are digits too (so that whatever lies behind the
+    valid bytes of a recycled read buffer looks like more digits), read with ReadULong / ReadLong up to the very end; regular
+    files of exactly N pages (nothing mapped behind the last byte) and read backends whose buffer was filled and compacted"""
+    cases = []
+    for _ in range(count):
+        backend = rng.choice(["M", "M", "R", "R", "R", "MF", "I", "ZR"])
+        minb = rng.choice([1, 4096, 4097])
+        window = window_of(minb)
+        if backend == "M":
+            size = PAGE * rng.choice([1, 2, 2, 3, 4])
+        else:
+            size = rng.choice([window + rng.range(1, 3 * PAGE), 2 * window + rng.range(0, PAGE), rng.range(50, PAGE)])
+        toks = []
+        n = 0
+        while n < size - 12:
+            tk = b"%d" % rng.below(10 ** rng.range(1, 17))
+            toks.append(tk)
+            n += len(tk) + 1
+        last = rng.choice([b"42", b"7", b"%d" % rng.below(10 ** 9)])
+        body = b" ".join(toks) + b" "
+        pad = size - len(body) - len(last)
+        if pad > 0:
+            body = b"1" * (pad - 1) + b" " + body if pad > 1 else b" " + body
+        data = body + last
+        ops = "".join(rng.choice("UUIUD") for _ in range(len(data.split()) - 1)) + rng.choice("UI") + "".join(rng.choice("UIDGSL") for _ in range(4))
+        chunks = []
+        comp = b""
+        if backend in ("R", "MF", "ZR"):
+            chunks = with_interrupts(rng, gen_chunks(rng, data, window)) if rng.chance(2, 3) else []
+        if backend == "ZR":
+            comp = compress(rng, data, rng.choice(["gz", "bz2", "xz"]))
+        cases.append("FP %s %x %s %s %s %s" % (backend, minb, hexs(data), hexs(comp), chunk_str(chunks), ops))
     return cases
 
 
@@ -562,6 +629,8 @@ def gen_rc_cases(rng, count, big):
         comp = b"".join(comps)
         src = rng.choice("FR")
         chunks = [rng.choice([1, 2, 6, 100, 16383, 16384, 16385, rng.range(1, 40000)]) for _ in range(60)] if src == "R" and rng.chance(3, 4) else []
+        if src == "R":
+            chunks = with_interrupts(rng, chunks)
         reqs = [rng.choice([1, 2, 3, 100, 4096, 16384, 65536, rng.range(1, 70000)]) for _ in range(rng.range(1, 12))]
         plain = b"".join(plains)
         if len(plain) > 20000 and sum(reqs) < 512 * len(reqs):
@@ -569,7 +638,7 @@ def gen_rc_cases(rng, count, big):
         h = 7
         for x in plain:
             h = (h * 257 + x + 1) % 2147483647
-        cases.append(("RC %s %s %s %s %s %s" % (src, hexs(comp), ",".join("%x" % c for c in chunks) or "-", ",".join("%x" % c for c in reqs),
+        cases.append(("RC %s %s %s %s %s %s" % (src, hexs(comp), chunk_str(chunks), ",".join("%x" % c for c in reqs),
                                                 ",".join(p.hex() or "-" for p in plains), ",".join("%x" % len(c) for c in comps)),
                       "%x %x 0" % (len(plain), h)))
     return cases
@@ -604,10 +673,12 @@ def gen_li_cases(rng, count):
             data = data[:-1]                        # no final newline: the last block is a partial line
         src = rng.choice("FRR")
         chunks = [rng.choice([1, 2, 5, 6, 7, bs - 1, bs, bs + 1, rng.range(1, 3 * bs)]) for _ in range(100)] if src == "R" and rng.chance(3, 4) else []
+        if src == "R":
+            chunks = with_interrupts(rng, chunks)
         comp = b""
         if rng.chance(1, 4):
             comp = compress(rng, data, rng.choice(["gz", "bz2", "xz"]))
-        cases.append("LI %s %x %s %s %s" % (src, bs, hexs(data), hexs(comp), ",".join("%x" % c for c in chunks) or "-"))
+        cases.append("LI %s %x %s %s %s" % (src, bs, hexs(data), hexs(comp), chunk_str(chunks)))
     return cases
 
 
@@ -740,6 +811,7 @@ def run(ctx):
         if content and content == open(name, "rb").read():
             for ops in ("L" * (content.count(b"\n") + 2) + "G", "DW" * (len(content.split()) + 1) + "LG"):
                 fp_cases.append("FP PF %x %s - - %s %s" % (rng.choice([1, 4096, 1 << 20]), hexs(content), ops, name))
+    fp_cases += gen_final_number_cases(rng.fork(), ctx.pick(16, 120))
     rc = gen_rc_cases(rng, ctx.pick(40, 400), big)
     bfp, brc = gen_boundary_cases(rng, 15, ctx.pick(4, 30))
     if big:
